@@ -772,6 +772,7 @@ static void runClientCase(Rng &rng, Gen &g, long long n)
     if (xep == ver.toStdString()) oraclePass()++;
     else emitFailKeys(explain(w, ver.toStdString()), "C20:advertised-ne-answered", replay);
     // a peer verifying per §5.4 item 4 treats a reply with a repeated feature as ill-formed, i.e. cannot validate the advertised hash
+    // (fixed by repo commit eee8133; case 1 = all bundled managers, MUC manager + client both contribute jabber:x:conference, stays the witness)
     {
         std::set<std::string> fs; std::string dup;
         for (auto &f : w.feats) if (!fs.insert(f).second) dup = f;
@@ -840,8 +841,7 @@ int main(int argc, char **argv)
     QCoreApplication app(argc, argv);
     Args a = parseArgs(argc, argv);
     bool thorough = a.tier == "thorough";
-    // vh::Rng's state for seed n+1 is the state for seed n advanced by one step, i.e. consecutive seeds replay the same stream
-    // shifted by one draw; scramble the seed first so that VERIF_SEED=1,2,3 explore different cases
+    // (vh::Rng hashes the seed itself by now; the extra scrambling only decorrelates this harness from the others)
     auto scramble = [](uint64_t z) { z += 0x9E3779B97F4A7C15ull; z = (z ^ (z >> 30)) * 0xBF58476D1CE4E5B9ull; z = (z ^ (z >> 27)) * 0x94D049BB133111EBull; return z ^ (z >> 31); };
     Rng rng(scramble(scramble(a.seed) ^ 0xC20C20C20ull));
     Gen g(rng);
@@ -861,7 +861,8 @@ int main(int argc, char **argv)
         v = realVer(x2);
         if (v == "q07IKJEyjvHSyhy//CH0CxmKi8w=") oraclePass()++; else oracleFail("C20:xep-example-5.3", v);
         runCase(x2, rng, g, 3, 6, true);
-        // DESIGN §6 row 19: U+1F600 sorts before U+FF5E by UTF-16 code units, after it by octets
+        // DESIGN §6 row 19 (fixed by repo commit 0beac74, kept as regression witness): U+1F600 sorts before U+FF5E by UTF-16 code units,
+        // after it by octets
         char32_t smile = 0x1F600, tilde = 0xFF5E;
         InfoSet w1; w1.ids << mkId("client", "pc", "", QString::fromUcs4(&smile, 1)) << mkId("client", "pc", "", QString::fromUcs4(&tilde, 1));
         runCase(w1, rng, g, 2, 4, true);
